@@ -13,7 +13,7 @@ func hC12Source() string {
 	// two or three entries in every index map of the translator; names symbolic
 	a, b := hLetterIn("a", 'a', 'c'), hLetterIn("b", 'd', 'f')
 	t1, t2 := hLetterIn("t1", 'p', 'r'), hLetterIn("t2", 's', 'u')
-	return "%" + t2 + " = type { %" + t1 + "* }\n%" + t1 + " = type { i32 }\n%z10 = type opaque\n%z9 = type opaque\n" +
+	return "%" + t2 + " = type { %" + t1 + "* }\n%" + t1 + " = type { i32 }\n%z10 = type opaque\n%z9 = type opaque\n%zal = type %" + t1 + "\n" +
 		"$" + b + " = comdat any\n$" + a + " = comdat any\n$c10 = comdat any\n$c9 = comdat any\n" +
 		"@" + b + " = global i32 0, comdat($" + b + ")\n@" + a + " = global %" + t2 + " zeroinitializer, comdat($" + a + ")\n" +
 		"@x = alias i32, i32* @" + b + "\n" +
